@@ -1,5 +1,8 @@
-"""Shared fixture for the EquationSystem properties (C05 C06 C07): a real md-grid (2x2 Cartesian host, two
-crossing fractures -> two 1D subdomains, one 0D intersection, four interfaces) and its abstract shape."""
+"""Shared fixture for the EquationSystem properties (C05 C06 C07): a real md-grid (3x2 Cartesian host, two
+crossing fractures -> two 1D subdomains, one 0D intersection, four interfaces) and its abstract shape.  The host
+is 3x2 (not 2x2) on purpose: after splitting it has 22 faces and 20 nodes, so face- and node-based row / dof
+counts cannot be confused unnoticed (a seeded change swapping them was invisible on the 2x2 grid, which has 16 of
+each)."""
 from __future__ import annotations
 
 import numpy as np
@@ -14,9 +17,9 @@ def mdg():
     import porepy as pp
 
     if "mdg" not in _CACHE:
-        f1 = np.array([[0.0, 2.0], [1.0, 1.0]])
+        f1 = np.array([[0.0, 3.0], [1.0, 1.0]])
         f2 = np.array([[1.0, 1.0], [0.0, 2.0]])
-        m = pp.meshing.cart_grid([f1, f2], np.array([2, 2]))
+        m = pp.meshing.cart_grid([f1, f2], np.array([3, 2]))
         m.compute_geometry()
         _CACHE["mdg"] = m
     return _CACHE["mdg"]
